@@ -142,6 +142,20 @@ def run(ctx):
             ctx.violation(f"run:exception:{m['input']}", f"{m}", {"pdb": text, "optargs": optargs})
         elif m.get("groups", 0) >= 1:
             ctx.nontriv((m["input"], tuple(optargs)))
+    # the synthetic ligands: the group types recognised on each molecule are the declared ones (pkv/ligandkit.py)
+    from .. import ligandkit as K
+    for rec, (cname, ctext, _o) in zip(recs, [(c[0], c[1], c[2]) for c in cases]):
+        if rec is None or not cname.startswith("kit-"):
+            continue
+        mol_name = cname[4:].split("@")[0]
+        resn = K.molecules()[mol_name][0]
+        tl = ctext.splitlines()
+        c0 = rec["confs"][0]
+        got = sorted([g["type"] for g in rec["G"][c0] if g.get("resn", "").strip() == resn] +
+                     [o[1] for o in (rec.get("_others") or {}).get(c0, []) if 0 <= o[0] < len(tl) and tl[o[0]][17:20].strip() == resn])
+        if got != sorted(K.expected_types(mol_name)):
+            ctx.violation(f"kit:ligand-group-types:{mol_name}", f"{cname}: groups recognised on {resn}: {got}, declared {sorted(K.expected_types(mol_name))}",
+                          {"pdb": ctext, "optargs": []})
     viol = runbank.validate(ctx, recs, metas, runbank.RUN_INV["C01"])
     texts = {c[0]: (c[1], c[2]) for c in cases}
     for inv, lst in sorted(viol.items()):
